@@ -30,6 +30,15 @@ Proof.
   exists a. split; [apply in_or_app; right; left; reflexivity|exact Ha].
 Qed.
 
+Lemma rmap_map_total : forall (A B C : Type) (f : B -> res C) (g : A -> B) (h : A -> C) (l : list A),
+  (forall a, In a l -> f (g a) = inl (h a)) -> rmap f (map g l) = inl (map h l).
+Proof.
+  intros A B C f g h l. induction l as [|a l IH]; intros H; cbn [rmap map].
+  - reflexivity.
+  - rewrite (H a (or_introl eq_refl)). unfold rbind. rewrite IH; [reflexivity|].
+    intros b Hb. apply H. right. exact Hb.
+Qed.
+
 Lemma fold_left_inv : forall (A B : Type) (f : A -> B -> A) (I : A -> list B -> Prop) (P : B -> Prop),
   (forall acc done x, P x -> Forall P done -> I acc done -> I (f acc x) (done ++ [x])) ->
   forall l done acc, Forall P l -> Forall P done -> I acc done -> I (fold_left f l acc) (done ++ l).
@@ -887,6 +896,302 @@ Proof.
   intros p. unfold Loaders.to_csv_rows. split; [apply map_length|]. split.
   - intros i. apply nth_error_map.
   - induction (ballots p) as [|b bs IH]; cbn [map]; constructor; [reflexivity|exact IH].
+Qed.
+
+(* ---------- load_scottish, cut into stages (each stage is literally the model's text) ---------- *)
+
+Notation scot := (scot cand).
+Notation scot_clean := (scot_clean cand).
+Notation scot_counted := (scot_counted cand).
+Notation brow_toks := (brow_toks cand).
+Notation crow_toks := (crow_toks cand).
+Notation crow_name := (crow_name cand).
+Notation crow_party := (crow_party cand).
+Notation scot_ranking := (scot_ranking cand).
+Notation wf_scot := (wf_scot cand).
+Notation tok_has_word := (tok_has_word cand).
+Notation condense := (condense cand ceqb).
+Notation condense_bs := (condense_bs cand ceqb).
+Notation plain_ballot := (plain_ballot cand).
+Notation dedup := (dedup cand ceqb).
+
+Definition scot_entry (line : list tok) : res (cand * tok) :=
+  match line with
+  | TNum _ :: _ => err EType
+  | t :: rest =>
+      if negb (tok_has_word t) then err EData
+      else match rest with
+           | TStr c _ :: party :: _ => ok (c, party)
+           | TNum _ :: _ :: _ => err EOther
+           | _ => err EIndex
+           end
+  | [] => err EIndex
+  end.
+
+Definition scot_line (names : list cand) (line : list tok) : res ballot :=
+  match line with
+  | TNum w :: order =>
+      let! r := rmap (fun t => match t with
+                               | TNum i => match nth_error names (Z.to_nat (i - 1)) with
+                                           | Some c => if (1 <=? i)%Z then ok [c] else err EKey
+                                           | None => err EKey
+                                           end
+                               | _ => err EKey
+                               end) order in
+      ok (plain_ballot r (inject_Z w))
+  | _ => err EValue
+  end.
+
+Definition scot_tail (data : list (list tok)) (k : Z) (seats ward : tok) : res scot :=
+  let n := Z.of_nat (length data) in
+  if negb (Z.eqb (Z.of_nat (scot_counted data)) k) then err EData
+  else
+    let cand_lines := py_slice data (n - (k + 1)) (-1) in
+    let! entries := rmap scot_entry cand_lines in
+    let names := map fst entries in
+    let! bs := rmap (scot_line names) (py_slice data 1 (n - (k + 1))) in
+    let! p := mk_profile bs (dedup names) in
+    ok (mkScot cand (condense p) seats (dedup names) entries ward).
+
+Definition scot_body (data : list (list tok)) : res scot :=
+  match data with
+  | [] => err EIndex
+  | first :: _ =>
+      match first with
+      | [cn; seats] =>
+          let! ward := match last data [] with w :: _ => ok w | [] => err EIndex end in
+          match cn with
+          | TNum k => scot_tail data k seats ward
+          | _ => err EData
+          end
+      | _ => err EData
+      end
+  end.
+
+Lemma load_scottish_eq : forall raw, load_scottish raw = scot_body (scot_clean raw).
+Proof. reflexivity. Qed.
+
+Lemma scot_clean_nonempty : forall raw r, In r (scot_clean raw) -> r <> [].
+Proof.
+  intros raw r H. unfold LoaderSpec.scot_clean in H. apply filter_In in H. destruct H as [_ H].
+  destruct r; [discriminate|discriminate].
+Qed.
+
+Lemma last_In : forall (A : Type) (l : list A) d, l <> [] -> In (last l d) l.
+Proof.
+  intros A l d. induction l as [|a l IH]; intros H; [contradiction H; reflexivity|].
+  destruct l as [|b l]; [left; reflexivity|]. right. apply IH. discriminate.
+Qed.
+
+Lemma scot_ward_ok : forall raw first rest, scot_clean raw = first :: rest ->
+  exists w wrest, last (first :: rest) [] = w :: wrest.
+Proof.
+  intros raw first rest H.
+  assert (Hin : In (last (first :: rest) []) (scot_clean raw)).
+  { rewrite H. apply last_In. discriminate. }
+  apply scot_clean_nonempty in Hin. destruct (last (first :: rest) []) as [|w wrest]; [contradiction Hin; reflexivity|].
+  exists w, wrest. reflexivity.
+Qed.
+
+(* ---------- errors ---------- *)
+
+Lemma scot_entry_EData : forall line, scot_entry line = inr EData ->
+  exists t rest, line = t :: rest /\ tok_has_word t = false /\ (forall z, t <> TNum z).
+Proof.
+  intros [|t rest] H; [discriminate|]. exists t, rest. split; [reflexivity|].
+  destruct t as [|z|s b]; cbn in H; try discriminate.
+  - split; [reflexivity|discriminate].
+  - destruct b; cbn in H.
+    + destruct rest as [|[|z|c b'] [|party rest']]; discriminate.
+    + split; [reflexivity|discriminate].
+Qed.
+
+Lemma scot_line_err : forall names line e, scot_line names line = inr e -> e = EKey \/ e = EValue.
+Proof.
+  intros names [|t order] e H; [injection H as <-; auto|].
+  destruct t as [|w|s b]; cbn [scot_line] in H; try (injection H as <-; auto).
+  destruct (rmap _ order) as [r|e'] eqn:E; cbn [rbind ok] in H; [discriminate|].
+  injection H as <-. apply rmap_err_in in E. destruct E as (t & _ & Ht). left.
+  destruct t as [|i|s b]; try (injection Ht as <-; reflexivity).
+  destruct (nth_error names (Z.to_nat (i - 1))); [|injection Ht as <-; reflexivity].
+  destruct (1 <=? i)%Z; [discriminate|injection Ht as <-; reflexivity].
+Qed.
+
+Theorem scottish_errors : forall raw,
+  (scot_clean raw = [] -> load_scottish raw = inr EIndex) /\
+  (forall first rest, scot_clean raw = first :: rest ->
+     (length first <> 2%nat -> load_scottish raw = inr EData) /\
+     (forall cn seats, first = [cn; seats] -> (forall k, cn <> TNum k) ->
+        load_scottish raw = inr EData) /\
+     (forall k seats, first = [TNum k; seats] ->
+        Z.of_nat (scot_counted (first :: rest)) <> k -> load_scottish raw = inr EData) /\
+     (forall k seats, first = [TNum k; seats] ->
+        Z.of_nat (scot_counted (first :: rest)) = k -> load_scottish raw = inr EData ->
+        exists line t rest',
+          In line (py_slice (first :: rest) (Z.of_nat (length (first :: rest)) - (k + 1)) (-1)) /\
+          line = t :: rest' /\ tok_has_word t = false /\ (forall z, t <> TNum z))).
+Proof.
+  intros raw. rewrite load_scottish_eq. split; [intros ->; reflexivity|].
+  intros first rest H. destruct (scot_ward_ok raw first rest H) as (w & wrest & Hw).
+  rewrite H. unfold scot_body. rewrite Hw. cbn [rbind ok].
+  split; [|split; [|split]].
+  - intros Hlen. destruct first as [|a [|b [|c l]]]; try reflexivity. contradiction Hlen. reflexivity.
+  - intros cn seats -> Hcn. destruct cn as [|k|s b]; try reflexivity. contradiction (Hcn k). reflexivity.
+  - intros k seats -> Hk. unfold scot_tail.
+    apply Z.eqb_neq in Hk. rewrite Hk. reflexivity.
+  - intros k seats -> Hk. unfold scot_tail.
+    apply Z.eqb_eq in Hk. rewrite Hk. cbn [negb].
+    set (data := [TNum k; seats] :: rest).
+    destruct (rmap scot_entry _) as [entries|e] eqn:E; cbn [rbind].
+    + destruct (rmap (scot_line (map fst entries)) _) as [bs|e] eqn:E2; cbn [rbind].
+      * destruct (mk_profile bs (dedup (map fst entries))) as [p|e] eqn:E3; cbn [rbind ok]; [discriminate|].
+        apply (mk_profile_err cand ceqb ceqb_spec) in E3. destruct E3 as [-> _]. discriminate.
+      * intros He. injection He as ->. apply rmap_err_in in E2. destruct E2 as (line & _ & Hl).
+        apply scot_line_err in Hl. destruct Hl; discriminate.
+    + intros He. injection He as ->. apply rmap_err_in in E. destruct E as (line & Hin & Hl).
+      apply scot_entry_EData in Hl. destruct Hl as (t & rest' & Hl & Ht & Hz).
+      exists line, t, rest'. auto.
+Qed.
+
+(* ---------- the well-formed case ---------- *)
+
+Lemma dedup_NoDup_id : forall l, NoDup l -> dedup l = l.
+Proof.
+  intros l H. induction H as [|a l Hn _ IH]; [reflexivity|]. cbn [Core.dedup].
+  rewrite (proj2 (memb_false_iff cand ceqb ceqb_spec a l) Hn), IH. reflexivity.
+Qed.
+
+Lemma cast_cands_all_empty : forall bs : list ballot,
+  (forall b, In b bs -> rk b = [] /\ sc b = []) -> cast_cands bs = [].
+Proof.
+  intros bs H. unfold Core.cast_cands.
+  assert (Hc : concat (map (fun b : ballot => if Qlt_bool 0 (wt b) then ballot_cands cand b else []) bs) = []).
+  { induction bs as [|b bs IH]; [reflexivity|]. cbn [map concat].
+    rewrite IH by (intros x Hx; apply H; right; exact Hx).
+    destruct (H b (or_introl eq_refl)) as [H1 H2]. unfold ballot_cands, flat. rewrite H1, H2.
+    destruct (Qlt_bool 0 (wt b)); reflexivity. }
+  rewrite Hc. reflexivity.
+Qed.
+
+Lemma scot_order_ok : forall names k order, k = Z.of_nat (length names) ->
+  Forall (fun i => (1 <= i <= k)%Z) order ->
+  rmap (fun t : tok => match t with
+                 | TNum i => match nth_error names (Z.to_nat (i - 1)) with
+                             | Some c => if (1 <=? i)%Z then ok [c] else err EKey
+                             | None => err EKey
+                             end
+                 | _ => err EKey
+                 end) (map TNum order) = inl (scot_ranking names order).
+Proof.
+  intros names k order Hk H. induction H as [|i order Hi _ IH]; [reflexivity|].
+  cbn [map rmap]. unfold LoaderSpec.scot_ranking. cbn [flat_map].
+  destruct (nth_error names (Z.to_nat (i - 1))) as [c|] eqn:E.
+  - assert (Hle : (1 <=? i)%Z = true) by (apply Z.leb_le; lia). rewrite Hle. cbn [rbind ok].
+    rewrite IH. reflexivity.
+  - apply nth_error_None in E. lia.
+Qed.
+
+Theorem scottish_wf : forall raw k seats bal cs ward wrest,
+  wf_scot raw k seats bal cs ward wrest ->
+  exists s, load_scottish raw = inl s /\
+    sc_seats cand s = seats /\ sc_ward cand s = ward /\
+    sc_cands cand s = map crow_name cs /\
+    sc_party cand s = map (fun c => (crow_name c, crow_party c)) cs /\
+    cands (sc_profile cand s) = map crow_name cs /\
+    ballots (sc_profile cand s) =
+      condense_bs (map (fun b => plain_ballot (scot_ranking (map crow_name cs) (snd b)) (inject_Z (fst b))) bal).
+Proof.
+  intros raw k seats bal cs ward wrest (Hdata & Hk & Hbal & Hnd & Hward).
+  set (names := map crow_name cs). set (first := [TNum k; seats] : list tok).
+  set (B := map brow_toks bal). set (C := map crow_toks cs). set (wrow := ward :: wrest).
+  fold first B C wrow in Hdata.
+  set (data := first :: B ++ C ++ [wrow]).
+  assert (Hlast : last data [] = wrow).
+  { unfold data. change (first :: B ++ C ++ [wrow]) with ((first :: B) ++ C ++ [wrow]).
+    rewrite app_assoc. apply last_last. }
+  assert (Hcount : scot_counted data = length cs).
+  { unfold LoaderSpec.scot_counted, data. cbn [filter first Loaders.tok_has_word].
+    rewrite !filter_app.
+    rewrite (filter_none _ _ B).
+    2:{ intros r Hr. unfold B in Hr. apply in_map_iff in Hr. destruct Hr as (b & <- & _). reflexivity. }
+    rewrite (Lib_rk.filter_all_true _ _ C).
+    2:{ intros r Hr. unfold C in Hr. apply in_map_iff in Hr. destruct Hr as (c & <- & _). reflexivity. }
+    cbn [filter wrow]. rewrite Hward. cbn [app]. rewrite app_nil_r. unfold C. apply map_length. }
+  assert (Hn : (Z.of_nat (length data) - (k + 1) = Z.of_nat (length (first :: B)))%Z).
+  { unfold data. cbn [length]. rewrite !app_length. cbn [length]. unfold C. rewrite map_length. lia. }
+  assert (Hslice1 : py_slice data (Z.of_nat (length data) - (k + 1)) (-1) = C).
+  { rewrite Hn. unfold data. change (first :: B ++ C ++ [wrow]) with ((first :: B) ++ C ++ [wrow]).
+    apply py_slice_mid_last. }
+  assert (Hslice2 : py_slice data 1 (Z.of_nat (length data) - (k + 1)) = B).
+  { rewrite Hn. unfold data. change (first :: B ++ C ++ [wrow]) with ([first] ++ B ++ (C ++ [wrow])).
+    change 1%Z with (Z.of_nat (length [first])).
+    change (length (first :: B)) with (length [first] + length B)%nat. apply py_slice_mid. }
+  assert (Hentries : rmap scot_entry C = inl (map (fun c => (crow_name c, crow_party c)) cs)).
+  { unfold C. apply rmap_map_total. intros c _. reflexivity. }
+  assert (Hnames : map fst (map (fun c => (crow_name c, crow_party c)) cs) = names).
+  { rewrite map_map. reflexivity. }
+  assert (Hlen : k = Z.of_nat (length names)) by (unfold names; rewrite map_length; exact Hk).
+  set (mkb := fun b : Z * list Z => plain_ballot (scot_ranking names (snd b)) (inject_Z (fst b))).
+  assert (Hbs : rmap (scot_line names) B = inl (map mkb bal)).
+  { unfold B. apply rmap_map_total. intros [w order] Hb.
+    unfold LoaderSpec.brow_toks, mkb. cbn [fst snd scot_line].
+    rewrite Forall_forall in Hbal. specialize (Hbal _ Hb). cbn [snd] in Hbal.
+    rewrite (scot_order_ok names k order Hlen Hbal). reflexivity. }
+  assert (Hdn : dedup names = names) by (apply dedup_NoDup_id; exact Hnd).
+  assert (Hprof : mk_profile (map mkb bal) names
+                  = inl (mkProfile (map mkb bal) names)).
+  { unfold Core.mk_profile. rewrite (proj2 (has_dup_false_iff cand ceqb ceqb_spec names) Hnd).
+    destruct names as [|c0 names'] eqn:En; [|reflexivity].
+    unfold ok. f_equal. f_equal. apply cast_cands_all_empty.
+    intros b Hb. apply in_map_iff in Hb. destruct Hb as ([w order] & <- & Hb). unfold mkb. cbn [rk sc fst snd].
+    split; [|reflexivity]. rewrite Forall_forall in Hbal. specialize (Hbal _ Hb). cbn [snd] in Hbal.
+    destruct order as [|i order]; [reflexivity|]. inversion Hbal as [|x l Hi _]; subst.
+    cbn [length] in Hlen. lia. }
+  rewrite load_scottish_eq, Hdata. fold data. unfold scot_body.
+  change (match data with [] => err EIndex | first0 :: _ => match first0 with
+            | [cn; seats0] => let! ward0 := match last data [] with w :: _ => ok w | [] => err EIndex end in
+                match cn with TNum k0 => scot_tail data k0 seats0 ward0 | _ => err EData end
+            | _ => err EData end end)
+    with (let! ward0 := match last data [] with w :: _ => ok w | [] => err EIndex end in
+          scot_tail data k seats ward0).
+  rewrite Hlast. cbn [wrow rbind ok]. unfold scot_tail.
+  rewrite Hcount, <- Hk, Z.eqb_refl. cbn [negb].
+  rewrite Hslice1, Hentries. cbn [rbind]. rewrite Hnames, Hslice2, Hbs. cbn [rbind].
+  rewrite Hdn, Hprof. cbn [rbind ok].
+  eexists. split; [reflexivity|]. cbn [sc_seats sc_ward sc_cands sc_party sc_profile].
+  repeat split.
+Qed.
+
+Theorem scottish_weights : forall raw k seats bal cs ward wrest s,
+  wf_scot raw k seats bal cs ward wrest -> load_scottish raw = inl s ->
+  (forall r, wtof_rk r (ballots (sc_profile cand s)) ==
+             qsum (map (fun b => inject_Z (fst b))
+                       (filter (fun b => ranking_eqb r (scot_ranking (map crow_name cs) (snd b))) bal))) /\
+  total_wt (ballots (sc_profile cand s)) == qsum (map (fun b => inject_Z (fst b)) bal).
+Proof.
+  intros raw k seats bal cs ward wrest s Hwf Hs.
+  destruct (scottish_wf raw k seats bal cs ward wrest Hwf) as (s' & Hs' & _ & _ & _ & _ & _ & Hb).
+  rewrite Hs in Hs'. injection Hs' as <-. rewrite Hb.
+  set (mkb := fun b : Z * list Z => plain_ballot (scot_ranking (map crow_name cs) (snd b)) (inject_Z (fst b))).
+  assert (Hsf : score_free cand (map mkb bal)).
+  { apply Forall_forall. intros b Hin. apply in_map_iff in Hin. destruct Hin as (x & <- & _). reflexivity. }
+  split.
+  - intros r. rewrite (condense_wtof cand ceqb ceqb_spec r _ Hsf).
+    unfold EditSpec.wtof_rk. rewrite filter_map_comm, map_map. reflexivity.
+  - rewrite (condense_total cand ceqb). unfold Core.total_wt. rewrite map_map. reflexivity.
+Qed.
+
+Theorem load_csv_total : forall ncols rows rc wc ic,
+  wf_table ncols rows rc wc ic -> exists p, load_csv ncols rows rc wc ic = inl p.
+Proof.
+  intros ncols rows rc wc ic WF. destruct (load_csv_wf ncols rows rc wc ic WF) as (ks & _ & _ & H).
+  eexists. exact H.
+Qed.
+
+(* on rank cells the model's row comparison is literal equality *)
+Theorem row_eqb_rank_cells : forall a b, Forall rank_cell a -> (row_eqb a b = true <-> a = b).
+Proof.
+  intros a b H. apply row_eqb_eq_l. eapply Forall_impl; [|exact H]. apply rank_cell_str.
 Qed.
 
 End WithCand.
